@@ -203,8 +203,8 @@ def _dt_cases_for_transition(name, tr, rnd, out, heavy, n_ws=7, hang_budget=None
                     hang_budget[0] -= 1
                     if rnd.randrange(2):
                         break
-            if not heavy and len(picked) > 6:
-                picked = rnd.sample(picked, 6)
+            if len(picked) > (3 if n_ws < 7 else 40):
+                picked = rnd.sample(picked, 3 if n_ws < 7 else 40)
             for (u, ws) in picked:
                 is_touch = (u, ws) in touching
                 if u != 4:
@@ -262,13 +262,13 @@ def cases(tier, seed):
         odd = [z for z in zones.ODD_ZONES if z in zones.names()]
         mids = [z for z in _midnight_zones() if z not in odd]
         rnd.shuffle(mids)
-        zs = odd + mids[:40]
-    hang_budget = [60 if thorough else 10]
+        zs = odd + mids[:30]
+    hang_budget = [40 if thorough else 6]
     for name in zs:
-        mid, other = _select_transitions(name, rnd, 6 if thorough else 2)
-        if not thorough and len(mid) > 4:
+        mid, other = _select_transitions(name, rnd, 6 if thorough else 1)
+        if not thorough and len(mid) > 3:
             big = sorted(mid, key=lambda t: -abs(t[2] - t[1]))[:1]
-            mid = big + rnd.sample([t for t in mid if t not in big], 3)
+            mid = big + rnd.sample([t for t in mid if t not in big], 2)
         for t in mid:
             _dt_cases_for_transition(name, t, rnd, out, heavy=True, n_ws=7 if thorough else 2, hang_budget=hang_budget)
         for t in other:
@@ -280,7 +280,7 @@ def cases(tier, seed):
         spec = specs[rnd.randrange(len(specs))]
         if spec != NAIVE and not (2 * US_DAY < W < MAX_WALL - 2 * US_DAY):
             spec = NAIVE
-        for u in range(9):
+        for u in (range(9) if thorough else rnd.sample(range(9), 4)):
             ws = rnd.randrange(7)
             f = rnd.randrange(2)
             prov = "ctor" if spec == NAIVE else PROVS[(0, 2, 3)[rnd.randrange(3)]]
@@ -311,7 +311,7 @@ def cases(tier, seed):
         ords.add(rnd.randrange(1, MAXORD + 1))
     for n in sorted(ords):
         for u in range(3, 9):
-            for ws in (range(7) if (u == 4 or thorough) else (rnd.randrange(7),)):
+            for ws in (range(7) if thorough else ((0, rnd.randrange(1, 7)) if u == 4 else (rnd.randrange(7),))):
                 out.append({"stream": "date", "fn": "date", "args": [n, u, ws, (ws + 6) % 7]})
     # ---- inconsistent week configurations: correspondence only
     for _ in range(200 if thorough else 40):
@@ -694,14 +694,17 @@ def _classify_side(side, tz, u, ws, W, f, fnat, g, lo, hi):
     if not (0 <= b <= MAX_WALL):
         return None
     k = kind_of(tz, b // MEG)
+    # a skipped boundary is moved by the LENGTH of the gap in the direction given by the instance's fold: backwards (fold 0) out of the
+    # unit for start_of, forwards (fold 1) out of the unit for end_of, and with the other fold onto the gap's edge only when the gap
+    # begins (ends) exactly at the boundary; a repeated boundary is read with the instance's fold
     if side == "start":
-        if k == "skipped" and (f == 0 or fnat == 0):
-            return "start-boundary-skipped-fold0"
+        if k == "skipped":
+            return "start-boundary-skipped"
         if k == "repeated" and (f == 1 or fnat == 1):
             return "start-boundary-repeated-fold1"
     else:
-        if k == "skipped" and (f == 1 or fnat == 1):
-            return "end-boundary-skipped-fold1"
+        if k == "skipped":
+            return "end-boundary-skipped"
         if k == "repeated" and (f == 0 or fnat == 0):
             return "end-boundary-repeated-fold0"
     return None
